@@ -630,5 +630,16 @@ func genC15(g *gen) {
 func (r *rng) pickInts(ss [][]int) []int { return ss[r.intn(len(ss))] }
 
 func init() {
-	generators["C15"] = genC15
+	generators["C15"] = func(g *gen) {
+		genC15(g)
+		// family MaskOps: setters, WithMask, reductions of masked tensors (gen_maskops.go)
+		if f, ok := generators["C15ops"]; ok {
+			for _, line := range captureGen(g, f) {
+				if j := strings.Index(line, " ; "); j >= 0 {
+					g.n++
+					fmt.Fprintf(g.w, "%s%d%s\n", g.pfx, g.n, line[j:])
+				}
+			}
+		}
+	}
 }
